@@ -100,4 +100,27 @@ Completeness(s) ==
 NoStuckTransfer(s) == (\A i \in 1..Len(s.wds) : s.wds[i].amt <= s.l1.cap) /\ (\A q \in 1..Len(s.deps) : s.deps[q].amt <= s.l1.cap)
 (* drained: nothing in flight, and every recorded withdrawal that C04 calls claimable (positive amount, valid L1 recipient) has been paid *)
 Drained(s) == s.l2.seqL1 > Len(s.deps) /\ \A i \in 1..Len(s.wds) : Claimed(s, s.wds[i]) \/ ~L1!ValidAddr(s.wds[i].to) \/ s.wds[i].amt = 0
+(* C08 as an action property: value moves only along the bridge's edges.  Per denom, with                              *)
+(*   L1u = users' L1 balances, Fly = deposits in flight, Sup = L2 supply, Unp = recorded unpaid withdrawals:            *)
+(*   Fly grows only by an accepted L1 deposit (by exactly its amount, out of the depositor's L1 balance);               *)
+(*   Fly shrinks only by a processed relay on the L2, into Sup (credited, minus what its hook withdraws) and Unp        *)
+(*   (refund or hook withdrawals);  Sup shrinks only by a withdrawal on the L2, into Unp;                               *)
+(*   Unp shrinks only by an accepted claim on the L1, into the recipient's L1 balance.                                  *)
+L1u(s, d, users) == SumIdx([a \in users |-> s.l1.bal[a][d]], users)
+FlowOver(s, o, t, users, denoms) ==
+  \A d \in denoms :
+    LET dFly == InFlight(t, d) - InFlight(s, d)
+        dSup == Supply2(t, d) - Supply2(s, d)
+        dUnp == Unpaid(t, d) - Unpaid(s, d)
+        dL1  == L1u(t, d, users) - L1u(s, d, users)
+        ev == o.e.e
+        isDep   == o.ok /\ o.e.chain = "L1" /\ ev.type = "InitiateTokenDeposit" /\ ev.b = B /\ ev.denom = d
+        isRelay == o.ok /\ o.e.chain = "L2" /\ ev.type = "FinalizeTokenDeposit" /\ o.resp.result = "SUCCESS"
+        isWd    == o.ok /\ o.e.chain = "L2" /\ ev.type = "InitiateTokenWithdrawal"
+        isClaim == o.ok /\ o.e.chain = "L1" /\ ev.type = "FinalizeTokenWithdrawal" /\ ev.b = B /\ ev.w.denom = d
+    IN /\ dFly > 0 => (isDep /\ dFly = ev.amt /\ dL1 = -ev.amt /\ dSup = 0 /\ dUnp = 0)
+       /\ dFly < 0 => (isRelay /\ dL1 = 0 /\ dSup + dUnp = -dFly /\ dSup >= 0 /\ dUnp >= 0)
+       /\ dSup < 0 => (isWd /\ dUnp = -dSup /\ dFly = 0 /\ dL1 = 0)
+       /\ dUnp < 0 => (isClaim /\ dL1 + dUnp = 0 /\ dFly = 0 /\ dSup = 0)
+       /\ (dSup > 0 /\ dFly = 0) => FALSE                       \* L2 supply never grows without a deposit leaving flight
 =============================================================================
